@@ -1,7 +1,7 @@
 (* compiled when the source's Get_results returns the shallow `entry.copy()`: the model, with the
    flags derived from the source, exhibits the aliasing trace for every configuration:
    [solve; save_iter; get_results 0; write into the returned array; get_results 0] — the stored
-   iteration reads differently the second time. *)
+   iteration reads differently the second time (here the write is a PARTIAL one: a single cell). *)
 From Coq Require Import List Bool Arith NArith.
 Import ListNotations.
 From EFModel Require Import C15_IterStore.
@@ -11,14 +11,14 @@ Definition N_eqb_list (a b : list N) : bool :=
   (length a =? length b) && forallb (fun p => N.eqb (fst p) (snd p)) (combine a b).
 Definition dict_eqb (a b : option dictv) : bool :=
   match a, b with
-  | Some (m, x), Some (n, y) => (m =? n) && N_eqb_list x y
+  | Some (m, x), Some (n, y) => (m =? n) && (length x =? length y) && forallb (fun p => N_eqb_list (fst p) (snd p)) (combine x y)
   | None, None => true
   | _, _ => false
   end.
 Definition aliases (c : config) : bool :=
-  let vs := map N.of_nat (seq 5 (nf c)) in
+  let vs := map (fun n => A (N.of_nat n)) (seq 5 (nf c)) in
   let s1 := reach c [Solve vs; SaveIter; GetResults 0] in
-  let s2 := reach c [Solve vs; SaveIter; GetResults 0; WriteRet 0 99%N; GetResults 0] in
+  let s2 := reach c [Solve vs; SaveIter; GetResults 0; WriteRetAt 0 1 99%N; GetResults 0] in
   negb (dict_eqb (hd None (store_vals c s1)) (hd None (store_vals c s2))).
 
 Example C15_alias_trace_current_source : forallb aliases all_cfgs = true.
